@@ -23,7 +23,9 @@ WeakBinary(x, y) ==
         ELSE {<<w1, w2>> : w1 \in Lite1(x), w2 \in Lite1(y)})
 WeakTuples(a) == IF Len(a) = 1 THEN WeakUnary(a[1]) ELSE WeakBinary(a[1], a[2])
 
-Tuples == IF Api \in EqOps THEN UNION {EqPairs(t) : t \in EqTypes} ELSE ArgTuples(Api)
+NoLm(a) == \A i \in 1..Len(a) : ~(IsNumK(a[i]) /\ Has(a[i].v, "lm"))
+Tuples0 == IF Api \in EqOps THEN UNION {EqPairs(t) : t \in EqTypes} ELSE ArgTuples(Api)
+Tuples == IF Mode = "call" THEN Tuples0 ELSE {a \in Tuples0 : NoLm(a)}      \* landmark operands: single calls only (their interval arithmetic has no order in the model)
 
 \* One output line per concrete operand tuple, carrying the set of its variants
 \* (weakened tuples / mark placements); the harness expands them.  (A single flat set of
